@@ -54,6 +54,15 @@ _UNSET_NAMES = ("Unset",)
 def _field(v):
     if type(v).__name__ in _UNSET_NAMES:
         return ["unset"]
+    if isinstance(v, (dict, list)):
+        # big or deeply nested values are represented by a digest of their type-strict, key-sorted JSON text
+        # (the C encoder copes with depths the recursive walker and its doubly nested output do not)
+        try:
+            text = json.dumps(v, sort_keys=True, separators=(",", ":"))
+            if len(text) > 1500:
+                return ["big", hashlib.sha256(text.encode()).hexdigest()[:16], len(text)]
+        except (TypeError, ValueError):
+            pass
     return typed(v)
 
 
@@ -64,7 +73,8 @@ def canon_error(e, with_context=True):
     if with_context:
         ctx = sorted((canon_error(c) for c in (getattr(e, "context", None) or [])), key=jdump)
     return {
-        "message": getattr(e, "message", None),
+        "message": getattr(e, "message", None) if len(getattr(e, "message", None) or "") < 4000
+        else "<long message %s>" % hashlib.sha256((getattr(e, "message") or "").encode("utf-8", "replace")).hexdigest()[:16],
         "validator": _field(getattr(e, "validator", None)),
         "validator_value": _field(getattr(e, "validator_value", None)),
         "path": typed(list(getattr(e, "path", ()))),
